@@ -230,7 +230,18 @@ func init() {
 		} else {
 			e.Unknown("Listener.serve")
 		}
-		e.P("/-- network/socket/listener/listener.go `Listener.serve`: calls / assignments-from-calls / returns in source order, each prefixed by its enclosing conditions -/")
+		// only the tracked primitives (untracked statements such as logging do not matter)
+		var tracked []string
+		for _, x := range seq {
+			for _, key := range []string{"SetReadDeadline", "startSniffing", "doneSniffing", ".Close()", "connections <-", "<-donec", "newConn(", "return"} {
+				if strings.Contains(x, key) {
+					tracked = append(tracked, x)
+					break
+				}
+			}
+		}
+		seq = tracked
+		e.P("/-- network/socket/listener/listener.go `Listener.serve`: the tracked calls (newConn, SetReadDeadline, start/doneSniffing, the hand-over, Close) and returns in source order, each prefixed by its enclosing conditions -/")
 		e.P("def serveSequence : List String := %s", LeanStrList(seq))
 
 		// --- sniffer.reset body
